@@ -88,7 +88,9 @@ def corrupt_post_terminal(batch):
             continue
         k = int(ks[0])
         if k >= h - 1 and full:
-            continue  # nothing after the terminated step
+            # nothing after the terminated step; its own successor observation (the terminal state) is legitimately
+            # read by the dynamics / representation losses, so it is NOT rewritten in the full view
+            continue
         src = (b + 1) % B
         touched = False
         for j in range(k + 1, h):
@@ -103,7 +105,9 @@ def corrupt_post_terminal(batch):
         if full and k + 1 <= h - 1:
             # the successor observation of the terminated step itself is also "after the termination"
             pass
-        if not full and k < h - 1:
+        if not full:
+            # reduced view: next_observation is the successor of the LAST step; whenever the window contains a terminated
+            # step (also when it is the last one) that successor lies behind the termination
             d["next_observation"][b] = d["observation"][src]
             touched = True
         if touched:
